@@ -126,6 +126,19 @@ CLAIMED = {
    note=("partial: Path.resolve / sysconfig / os.environ are the runtime's (inputs of the model); the allow-list oracle follows the property's "
          "reading (import-path components) — the code matches any component of the absolute path for files outside the library roots (watch item)"),
    technique="Lean 4 proof (decision logic + invariant over event histories) + differential correspondence on enumerated code objects"),
+ "C03": dict(
+   text=("Lean 4 theorems about the two channels through which the tracer could reach the program: type collection applies to any object "
+         "only `type()` or a walk of an exact builtin container, at every nesting depth (only_exact_containers_are_traversed); an Exception "
+         "raised by function lookup, type collection or logger.log never leaves the profiler callback and leaves the state consistent "
+         "(callback_never_raises_exception, callback_ok, log_failure_leaves_no_entry, no_faults_is_step); on exit of the tracing context the "
+         "previous profiler is back, the logger flushed exactly once, the program's own outcome preserved (context_restores_and_flushes_once). "
+         "Tied to /repo by running tripwire workloads (attribute hooks, __class__ overrides, descriptors, container subclasses, journalling "
+         "hash/eq/bool/repr, metaclass checks; as args, returns, yields, dict keys, globals, callable outer locals) untraced and traced under "
+         "every logger fault, exit kind and k, comparing journal, results, exceptions, stdout, profiler and flush count."),
+   ref="DESIGN.md section 4 C03",
+   note=("partial: 'same results/exceptions/output with and without tracing' is a statement about CPython executing a program: observed "
+         "differentially on the tripwire workloads, not proved; the traced/untraced runs share one interpreter"),
+   technique="Lean 4 proof (case analysis of the guarded callback and context manager; structural induction over values) + differential tripwire runs"),
 }
 
 NOT_YET = "check not built yet (build in progress; see DESIGN.md section 10)"
